@@ -7,6 +7,7 @@ import (
 	"math/big"
 	"math/rand/v2"
 
+	"github.com/oasisprotocol/curve25519-voi/zzverif/corpus"
 	"github.com/oasisprotocol/curve25519-voi/zzverif/mon"
 	"github.com/oasisprotocol/curve25519-voi/zzverif/ref"
 )
@@ -228,6 +229,24 @@ func EdFamilies(rng *rand.Rand, nKeys int, nSpecialSq int) []EdCase {
 		Rb := ref.Encode(ref.B.Mul(new(big.Int).Mod(sv, ref.L)))
 		msg := []byte{byte(i), byte(rng.IntN(256))}
 		cases = append(cases, EdCase{"S-structured/small-order-A", mon.Hex(ref.Encode(a)), mon.Hex(msg), mon.Hex(append(Rb, le32Big(sv)...)), 0, ""})
+	}
+	// challenge scalars with rare structure, found by search (see package corpus): valid signatures, the same with one
+	// bit of S flipped, and the same with a torsion component added to A (the key is part of the hash input, so k
+	// changes and the structure is lost; kept only as a rejection case with the original k's signature)
+	stride := 1
+	if nKeys < 12 {
+		stride = 4
+	}
+	for i, g := range corpus.GroundKs() {
+		if i%stride != 0 {
+			continue
+		}
+		pk, msg, sig := g.Signature()
+		fam := "ground-k/" + g.Class()
+		cases = append(cases, EdCase{fam, mon.Hex(pk), mon.Hex(msg), mon.Hex(sig), 0, ""})
+		bad := append([]byte{}, sig...)
+		bad[32+rng.IntN(31)] ^= 1 << uint(rng.IntN(8))
+		cases = append(cases, EdCase{fam + "/S-bit-flipped", mon.Hex(pk), mon.Hex(msg), mon.Hex(bad), 0, ""})
 	}
 	return cases
 }
